@@ -11,12 +11,12 @@
   `QV.Gen.*` (re-extracted from the Rust source on every run).
   Spec: `QV.Spec.Codes` (`Presents`: RFC 3597 §5 + the IANA mnemonics written out literally).
 
-  RESULT.  Everything in the property holds for all values EXCEPT "mnemonics parse
-  case-insensitively": `match Caseless(text) { Caseless("IN") => … }` matches the literal
-  octet-for-octet (a struct pattern never calls `PartialEq`), so `"in"`, `"a"`, `"any"` are
-  rejected as unknown.  `C17_full` is therefore false (`C17_counterexample`); what is proved is
-  `C17_partial` = `C17_full` outside the known-finding predicate `KF_caseVariant`, together with
-  the exact behaviour on that predicate (`C17_mnemonic_variant_rejected`).
+  RESULT.  The property holds for all values (`C17_full`).  History: before commit 41208a0 the
+  mnemonic arms `match Caseless(text) { Caseless("IN") => … }` compared the text exactly (a struct
+  pattern never calls `PartialEq`), so `"in"`, `"a"`, `"any"` were rejected (defect D13); the fix
+  upper-cases the text before the arms.  Whether the normalisation is present is extracted
+  (`Gen.*ParseNormalise`) and required by `C17_shape`; reverting the fix breaks `C17_shape` and
+  everything below it.
 -/
 import QV.Proofs.Codes
 
@@ -67,18 +67,23 @@ def prefixOf : Kind → String
 instance (tbl word) : Decidable (NoWord tbl word) := by unfold NoWord; infer_instance
 instance (tbl) : Decidable (Distinct tbl) := by unfold Distinct; infer_instance
 instance (d t) : Decidable (RowsParse d t) := by unfold RowsParse; infer_instance
+instance (tbl) : Decidable (AllUpper tbl) := by unfold AllUpper; infer_instance
 
 /-- shape of the source the model relies on: the slice `text[n..]` starts where `text.get(0..n)`
-    ended, `n` is the length of the word, `Display` and `FromStr` use the same word, and the
-    Qtype/Qclass impls delegate to Type/Class. -/
+    ended, `n` is the length of the word, `Display` and `FromStr` use the same word, the
+    Qtype/Qclass impls delegate to Type/Class, and all four `FromStr` impls upper-case the text
+    before the mnemonic arms. -/
 theorem C17_shape :
     (∀ k, (wordOf k).length = endOf k) ∧
     Gen.typeParseSliceFrom = Gen.typeParseGetEnd ∧ Gen.classParseSliceFrom = Gen.classParseGetEnd ∧
     (∀ k, (bytesOf (prefixOf k)).map lowerU8 = (wordOf k).map lowerU8) ∧
     Gen.qtypeParseDelegate = "Type" ∧ Gen.qtypeDisplayDelegate = "Type" ∧
-    Gen.qclassParseDelegate = "Class" ∧ Gen.qclassDisplayDelegate = "Class" := by
+    Gen.qclassParseDelegate = "Class" ∧ Gen.qclassDisplayDelegate = "Class" ∧
+    Gen.typeParseNormalise = "to_ascii_uppercase" ∧ Gen.classParseNormalise = "to_ascii_uppercase" ∧
+    Gen.qtypeParseNormalise = "to_ascii_uppercase" ∧ Gen.qclassParseNormalise = "to_ascii_uppercase" := by
   refine ⟨?_, by decide +kernel, by decide +kernel, ?_, by decide +kernel, by decide +kernel,
-    by decide +kernel, by decide +kernel⟩
+    by decide +kernel, by decide +kernel, by decide +kernel, by decide +kernel, by decide +kernel,
+    by decide +kernel⟩
   · intro k; cases k <;> decide +kernel
   · intro k; cases k <;> decide +kernel
 
@@ -87,6 +92,9 @@ theorem C17_tables_no_word (k : Kind) : NoWord (tableOf k) (wordOf k) := by case
 
 /-- no two arms of a table carry mnemonics that are equal up to case -/
 theorem C17_tables_distinct (k : Kind) : Distinct (tableOf k) := by cases k <;> decide +kernel
+
+/-- every mnemonic arm is written in upper case (else it could never match the upper-cased text) -/
+theorem C17_tables_upper (k : Kind) : AllUpper (tableOf k) := by cases k <;> decide +kernel
 
 /-- every text written by a `Display` arm is a mnemonic arm of `FromStr` with the same value -/
 theorem C17_display_rows_parse (k : Kind) : RowsParse (dtableOf k) (tableOf k) := by cases k <;> decide +kernel
@@ -106,7 +114,7 @@ theorem C17_display_tables_are_iana (k : Kind) :
   cases k <;> decide +kernel
 
 theorem C17_parse_eq (k : Kind) (t : Text) :
-    parse k t = parseWith (tableOf k) (wordOf k) (endOf k) (endOf k) t := by
+    parse k t = parseWith (tableOf k) UP (wordOf k) (endOf k) (endOf k) t := by
   cases k
   · rfl
   · rfl
@@ -157,21 +165,20 @@ theorem C17_rfc3597_all_values (k : Kind) (p : Text) (v : Nat) (hp : lower p = l
 
 /-! ### 3. mnemonics -/
 
-/-- Every registry mnemonic, spelt as in the registry (upper case), parses to its value. -/
-theorem C17_mnemonic_exact (k : Kind) (m : String) (v : Nat) (h : (m, v) ∈ mnemonics k) :
-    parse k (ascii m) = .ok v := by
-  rw [C17_parse_eq]
-  exact parseWith_exact _ _ _ _ (C17_tables_distinct k) _ _ ((C17_tables_are_iana k).1 (m, v) h)
-
-/-- **The defect, exactly.** Any *other* case variant of a registry mnemonic is rejected as
-    unknown (for every kind, every mnemonic, every variant). -/
-theorem C17_mnemonic_variant_rejected (k : Kind) (m : String) (v : Nat) (h : (m, v) ∈ mnemonics k)
-    (s : Text) (hs : lower s = lower (ascii m)) (hne : s ≠ ascii m) :
-    parse k s = .err .Unknown := by
+/-- **Mnemonics parse case-insensitively.** For every kind, every registry mnemonic `m` of value
+    `v` and every text `s` equal to `m` up to ASCII case (all 2^len variants), `s` parses to `v`. -/
+theorem C17_mnemonic (k : Kind) (m : String) (v : Nat) (h : (m, v) ∈ mnemonics k)
+    (s : Text) (hs : lower s = lower (ascii m)) : parse k s = .ok v := by
   rw [C17_parse_eq]
   rw [lower_eq_map, lower_eq_map] at hs
-  exact parseWith_variant _ _ _ _ (C17_shape.1 k) (C17_tables_no_word k) (C17_tables_distinct k) _ _
-    ((C17_tables_are_iana k).1 (m, v) h) s hs hne
+  exact parseWith_mnemonic _ _ _ _ (C17_tables_distinct k) (C17_tables_upper k) _ _
+    ((C17_tables_are_iana k).1 (m, v) h) s hs
+
+/-- the same over the generated tables: every arm of the Rust source, in any case -/
+theorem C17_mnemonic_generated (k : Kind) (m : Text) (v : Nat) (h : (m, v) ∈ tableOf k)
+    (s : Text) (hs : s.map lowerU8 = m.map lowerU8) : parse k s = .ok v := by
+  rw [C17_parse_eq]
+  exact parseWith_mnemonic _ _ _ _ (C17_tables_distinct k) (C17_tables_upper k) _ _ h s hs
 
 /-! ### 4. Opcode / RCODE conversions -/
 
@@ -215,58 +222,25 @@ theorem C17_rcode_from_ext_none_iff (e : Nat) : rcodeFromExt e = none ↔ ¬ e <
 
 /-- `text[n..]` after a successful `text.get(0..n)` is always on a char boundary. -/
 theorem C17_no_panic (k : Kind) (t : Text) : parse k t ≠ .panic := by
-  rw [C17_parse_eq]; exact parseWith_no_panic _ _ _ t
+  rw [C17_parse_eq]; exact parseWith_no_panic _ _ _ _ t
 
 /-! ### 6. the property as a whole -/
 
-/-- The property at full strength: every presentation (RFC 3597 §5 + registry mnemonics in any
-    case) of a 16-bit code parses to that code; display/parse round trip; 4-bit conversions. -/
-def C17_full : Prop :=
-  (∀ k t v, Presents k t v → parse k t = .ok v) ∧
-  (∀ k v, v < 65536 → parse k (display k v) = .ok v) ∧
-  (∀ x, opcodeTryFrom x = some x ↔ fitsFourBits x) ∧
-  (∀ x, rcodeTryFrom x = some x ↔ fitsFourBits x) ∧
-  (∀ e, rcodeFromExt e = some e ↔ e < 16)
-
-/-- known finding `D14-mnemonics-case-sensitive`: the text is a case variant of a registry
-    mnemonic other than the registry's own (upper-case) spelling -/
-def KF_caseVariant (k : Kind) (t : Text) : Prop :=
-  ∃ m v, (m, v) ∈ mnemonics k ∧ lower t = lower (ascii m) ∧ t ≠ ascii m
-
-/-- `"a"` presents TYPE 1 but is rejected. -/
-theorem C17_witness : Presents .type [97] 1 ∧ parse .type [97] = .err .Unknown :=
-  ⟨.mnemonic (m := "A") (by decide +kernel) (by decide +kernel),
-   C17_mnemonic_variant_rejected .type "A" 1 (by decide +kernel) [97] (by decide +kernel) (by decide +kernel)⟩
-
-/-- **The unchanged code violates the property** (mnemonics are matched case-sensitively). -/
-theorem C17_counterexample : ¬ C17_full := by
-  intro h
-  have := h.1 .type [97] 1 C17_witness.1
-  rw [C17_witness.2] at this
-  cases this
-
-/-- **What holds**: the full property outside the known finding. -/
-theorem C17_partial :
-    (∀ k t v, Presents k t v → ¬ KF_caseVariant k t → parse k t = .ok v) ∧
+/-- **C17.** Every presentation (RFC 3597 §5 form, or a registry mnemonic, in any ASCII case) of a
+    16-bit code parses to that code; rendering any 16-bit value and parsing it back yields the
+    value; `Opcode` / `Rcode` conversions accept exactly the 4-bit values and keep them; an extended
+    RCODE converts exactly when below 16. -/
+theorem C17_full :
+    (∀ k t v, Presents k t v → parse k t = .ok v) ∧
     (∀ k v, v < 65536 → parse k (display k v) = .ok v) ∧
     (∀ x, opcodeTryFrom x = some x ↔ fitsFourBits x) ∧
     (∀ x, rcodeTryFrom x = some x ↔ fitsFourBits x) ∧
     (∀ e, rcodeFromExt e = some e ↔ e < 16) := by
   refine ⟨?_, C17_roundtrip, C17_opcode_iff, C17_rcode_iff, C17_rcode_from_ext_iff⟩
-  intro k t v hp hkf
+  intro k t v hp
   cases hp with
-  | mnemonic hm ht =>
-    rename_i m
-    by_cases e : t = ascii m
-    · subst e; exact C17_mnemonic_exact k m v hm
-    · exact absurd ⟨m, v, hm, ht, e⟩ hkf
+  | mnemonic hm ht => exact C17_mnemonic k _ v hm t ht
   | generic hp hd hv => exact C17_rfc3597 k _ _ v hp hd hv
-
-/-- and on the known finding the parser always answers "unknown" -/
-theorem C17_known_finding_exact (k : Kind) (t : Text) (h : KF_caseVariant k t) :
-    parse k t = .err .Unknown := by
-  obtain ⟨m, v, hm, ht, hne⟩ := h
-  exact C17_mnemonic_variant_rejected k m v hm t ht hne
 
 /-! ### 7. the spec is unambiguous: a text presents at most one value -/
 
@@ -318,12 +292,11 @@ example : Presents .qtype (bytesOf "tYpE252") 252 :=
   .generic (p := bytesOf "tYpE") (by decide +kernel)
     (.snoc 2 (by omega) (by omega) (.snoc 5 (by omega) (by omega) (.digit 2 (by omega)))) (by omega)
 example : Presents .qtype (bytesOf "axfr") 252 := .mnemonic (m := "AXFR") (by decide +kernel) (by decide +kernel)
-example : ¬ KF_caseVariant .type (bytesOf "NS") := by
-  intro ⟨m, v, hm, hl, hne⟩
-  have := (C17_tables_are_iana .type).1 (m, v) hm
-  have e := C17_tables_distinct .type (bytesOf "NS", 2) (by decide +kernel) _ this (by
-    rw [lower_eq_map, lower_eq_map] at hl; exact hl)
-  simp at e; exact hne e.1
-example : KF_caseVariant .class [105, 110] := ⟨"IN", 1, by decide +kernel, by decide +kernel, by decide +kernel⟩
+/-- regression witnesses for the repaired defect D13: lower-case mnemonics parse -/
+example : parse .type (bytesOf "a") = .ok 1 := by decide +kernel
+example : parse .class (bytesOf "in") = .ok 1 := by decide +kernel
+example : parse .qtype (bytesOf "aNy") = .ok 255 := by decide +kernel
+example : parse .qclass (bytesOf "none") = .ok 254 := by decide +kernel
+example : Presents .type [97] 1 := .mnemonic (m := "A") (by decide +kernel) (by decide +kernel)
 
 end QV.C17
